@@ -156,6 +156,9 @@ def judge(ctx, sc, im):
             if x.get('_root_ili') not in (None, [], ['None']):
                 ctx.fail('simulated-root-has-no-ili', sc, {'args': args, 'synset': x['ref'], 'root.ili': x['_root_ili']})
                 break
+        if im[k]['scope'].get('_ili_lookup_bad'):
+            ctx.fail('Wordnet.ili(id)-finds-exactly-the-ILIs-of-the-selection(those-Wordnet.ilis()-lists)', sc,
+                     {'args': args, 'bad': im[k]['scope']['_ili_lookup_bad']})
         inst = multi.installed_after(sc, im, k)
         default_mode = not args.get('lexicon') and not args.get('lang')
         if default_mode:
